@@ -724,4 +724,5 @@ def rules(tier):
     from . import precision
     return [rule_argmin, rule_best, rule_fresh, rule_init, rule_memorder, rule_incumbent, c07.rule_degree, rule_scanexit, rule_counts,
             carry.make_clone_rule("R-C09-clone", {"linfa_clustering"}, 10), carry.make_setter_rule("R-C09-override", {"linfa_clustering"}, 10), c04.make_carry_rule("R-C09-carry", {"KMeansParams"}, 4),
-            precision.make_rule("R-C09-precision", lambda f: f["d"]["krate"] == "linfa_clustering" and any(x in f["d"]["path"] + " " + (f["d"].get("self_adt") or "") for x in ("k_means", "KMeans")), 30, "linfa-clustering k_means")]
+            precision.make_rule("R-C09-precision", lambda f: f["d"]["krate"] == "linfa_clustering" and any(x in f["d"]["path"] + " " + (f["d"].get("self_adt") or "") for x in ("k_means", "KMeans")), 30, "linfa-clustering k_means"),
+            carry.make_accessor_rule("R-C09-accessor", {"linfa_clustering"}, 10), carry.make_ctor_rule("R-C09-ctor", {"linfa_clustering"}, 4)]
